@@ -38,7 +38,7 @@ def build_molecule(kind, nres, layout, tag, chain='A'):
     mol = vermouth.molecule.Molecule()
     mol.meta['tag'] = tag
     mol.meta['sel'] = (kind == 'S')
-    resname = 'ALA' if kind == 'S' else 'LIG'
+    resname = 'LIG' if kind == 'U' else 'ALA'
     per = 2
     keys = {}
     if layout == 'contig':
@@ -55,6 +55,10 @@ def build_molecule(kind, nres, layout, tag, chain='A'):
             mol.add_node(key, resid=r + 1, resname=resname, chain=chain,
                          atomname='BB' if a == 0 else 'SC1', old='keep-%s' % tag,
                          position=None)
+            if kind == 'N' or (kind == 'P' and r == nres - 1):
+                # particles without any residue name (hand-built solvent / ions; one unnamed residue in a protein):
+                # is_protein is documented as "all residues are protein residues", so these molecules are not proteins
+                del mol.nodes[key]['resname']
     # bonds inside and between consecutive residues (not needed, but realistic)
     for r in range(nres):
         mol.add_edge(keys[r][0], keys[r][1])
@@ -92,6 +96,14 @@ def system_specs(max_mols):
             if any(n == 1 and lay != 'contig' for _, n, lay in combo):
                 continue
             yield combo
+
+
+def special_specs(max_mols):
+    options = [(k, n, 'contig') for k in 'SUNP' for n in (1, 2)]
+    for m in range(1, max_mols + 1):
+        for combo in itertools.product(options, repeat=m):
+            if any(k in 'NP' for k, _, _ in combo):
+                yield combo
 
 
 def build_system(spec):
@@ -266,10 +278,113 @@ def check_pipeline(spec, acc):
             acc.violation('pipeline-wrong-residue', '%s route: got %r, expected %r' % (route, got, expected), case)
 
 
+# ------------------------------------------------------------------ histories with in-place edits
+
+H_OPS = [('annotate', 'exact'), ('annotate', 'one'), ('annotate', 'wrong'), ('iter',),
+         ('edit', 'rechain'), ('edit', 'merge'), ('edit', 'rename'), ('edit', 'insertion')]
+
+
+def history_molecule():
+    """Two copies of a two-residue peptide in one molecule, both numbered 1-2 in chain A: the atoms of the copies that agree
+    in (chain, resid, resname, insertion code) are one residue, as the residue graph defines it."""
+    import vermouth
+    mol = vermouth.molecule.Molecule()
+    mol.meta['sel'] = True
+    key = 0
+    for copy_idx in range(2):
+        for r, resname in enumerate(('ALA', 'GLY')):
+            for a in range(2):
+                mol.add_node(key, resid=r + 1, resname=resname, chain='A', atomname='BB' if a == 0 else 'SC1', ann='old', group=(copy_idx, r))
+                key += 1
+    for k in range(key - 1):
+        mol.add_edge(k, k + 1)
+    return mol
+
+
+def rebuilt(mol):
+    """A brand-new molecule object with the same keys, attributes, edges and meta (never looked at before)."""
+    import vermouth
+    new = vermouth.molecule.Molecule()
+    new.meta.update(mol.meta)
+    for k in mol.nodes:
+        new.add_node(k, **dict(mol.nodes[k]))
+    new.add_edges_from(mol.edges)
+    return new
+
+
+def apply_edit(mol, which):
+    for k, node in mol.nodes(data=True):
+        copy_idx, r = node['group']
+        if which == 'rechain' and copy_idx == 1:
+            node['chain'] = 'B'
+        elif which == 'merge' and r == 1:
+            node['resid'] = 1
+            node['resname'] = 'ALA'
+        elif which == 'rename' and (copy_idx, r) == (1, 1):
+            node['resname'] = 'SER'
+        elif which == 'insertion' and copy_idx == 1:
+            node['insertion_code'] = 'A'
+
+
+def annotate(mol, mode):
+    """Returns the 'ann' values per node or 'error'; the sequence length follows the residue count of a REBUILT copy."""
+    import vermouth
+    from vermouth.dssp.dssp import AnnotateResidues
+    nres = len(list(rebuilt(mol).iter_residues()))
+    seq = {'exact': TOKENS[:nres], 'one': 'z', 'wrong': TOKENS[:nres + 1] if nres > 0 else 'ab'}[mode]
+    system = vermouth.System()
+    system.molecules.append(mol)
+    try:
+        AnnotateResidues('ann', seq).run_system(system)
+    except ValueError:
+        return 'error'
+    return {k: mol.nodes[k].get('ann') for k in mol.nodes}
+
+
+def check_history(ops, acc):
+    """The molecule that lived through the history and a brand-new molecule with the same content must take the last
+    annotation identically (same assignment or same refusal)."""
+    case = {'layer': 'history', 'ops': [list(o) for o in ops]}
+    mol = history_molecule()
+    try:
+        for op in ops[:-1]:
+            if op[0] == 'annotate':
+                annotate(mol, op[1])
+            elif op[0] == 'iter':
+                list(mol.iter_residues())
+            else:
+                apply_edit(mol, op[1])
+        fresh = rebuilt(mol)
+        got = annotate(mol, ops[-1][1])
+        want = annotate(fresh, ops[-1][1])
+    except Exception as err:   # pylint: disable=broad-except
+        acc.case(outcome='exc')
+        acc.violation('history-exception', 'history %r raised %r' % (list(ops), err), case)
+        return
+    edits = [o for o in ops if o[0] == 'edit']
+    acc.case(nontrivial=bool(edits), outcome=('h', want if isinstance(want, str) else tuple(sorted(want.values()))))
+    if got != want:
+        sig = 'history-stale-residues'
+        acc.violation(sig, 'after the history %r the annotation gave %r; the same annotation on a newly built molecule with the same '
+                      'content gives %r' % ([list(o) for o in ops], got, want), case)
+
+
+def history_items(depth):
+    for n in range(1, depth + 1):
+        for ops in itertools.product(H_OPS, repeat=n):
+            if ops[-1][0] != 'annotate':
+                continue
+            yield ops
+
+
 def work(task):
     common.bind_repo()
     kind, payload = task
     acc = Acc()
+    if kind == 'history':
+        for ops in payload:
+            check_history(ops, acc)
+        return acc
     if kind == 'assign':
         for spec in payload:
             total = sum(n for _, n, _ in spec)
@@ -316,6 +431,16 @@ def run(ctx):
         acc += part
     ctx.layer('assign', acc)
     acc = Acc()
+    sspecs = list(special_specs(3 if ctx.quick else 4))
+    for part in common.pmap(work, [('assign', chunk) for chunk in common.chunked(sspecs, max(1, len(sspecs) // 64))]):
+        acc += part
+    ctx.layer('assign-unnamed-particles', acc)
+    acc = Acc()
+    hist = list(history_items(3 if ctx.quick else 4))
+    for part in common.pmap(work, [('history', chunk) for chunk in common.chunked(hist, max(1, len(hist) // 32))]):
+        acc += part
+    ctx.layer('histories-with-in-place-edits', acc)
+    acc = Acc()
     pspecs = [s for s in specs if len(s) <= 3]
     for part in common.pmap(work, [('pipeline', chunk) for chunk in common.chunked(pspecs, max(1, len(pspecs) // 64))]):
         acc += part
@@ -333,7 +458,9 @@ def run(ctx):
 def replay(case):
     common.bind_repo()
     acc = Acc()
-    if case['layer'] == 'assign':
+    if case['layer'] == 'history':
+        check_history([tuple(o) for o in case['ops']], acc)
+    elif case['layer'] == 'assign':
         check_assign([tuple(s) for s in case['spec']], case['selector'], case['seqlen'], case['as_str'], acc)
     elif case['layer'] == 'pipeline':
         check_pipeline([tuple(s) for s in case['spec']], acc)
